@@ -22,7 +22,7 @@ EXPLANATION = (
     "section spelling on both sides, comment lines numbered 1..n with Lines = n; R8 object lists: every exported index "
     "is written to its list and its object body; R9 presence conditions: every optional attribute (storage location, "
     "data/access type, default, value, limits, description, factor, unit) is written under a positive test of that "
-    "same attribute, bit rate and node id of a DCF whenever set, the file name's suffix selects DCF/EDS when no type is given. R10 no class-level mutable object is mutated in place by instances (each node/client/map/dictionary has its own state)."
+    "same attribute, bit rate and node id of a DCF whenever set, the file name's suffix selects DCF/EDS when no type is given. R11 on import the node id in force (argument, else the document's NodeID) reaches every build_variable call and od.node_id (shared with C08.R7); R10 no class-level mutable object is mutated in place by instances (each node/client/map/dictionary has its own state)."
 )
 ASSUMPTIONS = [
     "not decided: round trip for random dictionaries; configparser write/read symmetry is the trusted base",
@@ -109,17 +109,23 @@ def run(chk):
             parsed = None
         chk.check(parsed == val, "R2", f"{E}:_revert_variable | {what} ({val}) is written as {text!r}", rv.loc(),
                   f"the importer's int(text, 0) {'cannot parse it' if parsed is None else 'reads ' + str(parsed)}: the value is lost on re-import")
-    for code, val, what in ((O.DATA_TYPES["REAL32"][0], 3.141592653589793, "REAL32"), (O.DATA_TYPES["REAL64"][0], -1.2345678901234567e-05, "REAL64")):
+    import struct as _st
+    f32 = lambda x: _st.unpack("<f", _st.pack("<f", x))[0]  # noqa  (the checker's own model of a REAL32 value)
+    fprobes = [(O.DATA_TYPES["REAL32"][0], f32(3.141592653589793), "REAL32"), (O.DATA_TYPES["REAL32"][0], 16777215.0, "REAL32"), (O.DATA_TYPES["REAL32"][0], f32(1 + 2 ** -23), "REAL32"),
+               (O.DATA_TYPES["REAL32"][0], f32(-0.1), "REAL32"), (O.DATA_TYPES["REAL32"][0], f32(1e-38), "REAL32"),
+               (O.DATA_TYPES["REAL64"][0], -1.2345678901234567e-05, "REAL64"), (O.DATA_TYPES["REAL64"][0], 0.1 + 0.2, "REAL64"), (O.DATA_TYPES["REAL64"][0], 1.7976931348623157e308, "REAL64")]
+    for code, val, what in fprobes:
         r = partial_eval(folder, rv.node, rv.mod, None, {"var_type": code, "value": val})
-        text = _revert_text(folder, rv, code, val)
+        text = r[1] if r[0] == "return" and isinstance(r[1], str) else _revert_text(folder, rv, code, val)
         if r[0] == "return" and isinstance(r[1], float):
-            chk.check(r[1] == val, "R2", f"{E}:_revert_variable | {what} default handed on unchanged", rv.loc(), f"{r[1]!r} != {val!r}")
+            chk.check(r[1] == val, "R2", f"{E}:_revert_variable | {what} {val!r} handed on unchanged", rv.loc(), f"{r[1]!r} != {val!r}")
         elif text is not None:
             try:
                 back = float(text)
             except ValueError:
                 back = None
-            chk.check(back == val, "R2", f"{E}:_revert_variable | {what} default written as {text!r}", rv.loc(),
+            same = back is not None and (back == val or (what == "REAL32" and abs(back) < 3.5e38 and f32(back) == f32(val)))
+            chk.check(same, "R2", f"{E}:_revert_variable | {what} {val!r} written as {text!r}", rv.loc(),
                       f"re-import reads {back!r} instead of {val!r}: the text keeps too few digits")
         else:
             chk.unk("R2", f"{E}:_revert_variable | {what}", rv.loc(), f"float branch not specialised: {r}")
@@ -394,6 +400,9 @@ def run(chk):
     st_ = folder.try_fold(xo.node.body[1].value if False else next((n.value for n in own_nodes(xo.node) if isinstance(n, ast.Assign) and src(n.targets[0]) == "supported_doctypes"), ast.Constant(None)), Scope(xo.mod), None)
     chk.check(st_ is not None and set(st_) == {"eds", "dcf"}, "R9", f"{OD}:export_od | supported document types", xo.loc(), f"{st_}")
 
+    # ------------------------------------------------------------------ R11 re-import resolves $NODEID against the document's node id (shared with C08.R7)
+    from . import c08 as _c08
+    _c08.node_id_in_force(chk, "R11")
     # ------------------------------------------------------------------ R10 instances are independent (shared clause)
     from . import shared as _shared
     _shared.isolation(chk, "R10", rels=['canopen/objectdictionary/__init__.py', 'canopen/objectdictionary/eds.py'])
